@@ -29,7 +29,7 @@ reg('C06', engine='h_spaces',
                            'c06_pairs_seam_or_corner': 1500000, 'c06_pairs_antipodal': 1200000, 'c06_pairs_coincident': 500000,
                            'c06_pairs_nearly_coincident': 800000, 'c06_triples_collinear': 1500000, 'c06_pairs_from_samplers': 700000,
                            'c06_compound_height_3': 300, 'c06_compound_with_zero_weight': 300},
-                          **_per_kind('c06_cases_', 300)),
+                          **_per_kind('c06_cases_', 250)),
             'thorough': dict({'c06_triples': 40000000, 'c06_triangle_checks': 200000000, 'c06_compound_sum_checks': 30000000},
                              **_per_kind('c06_cases_', 1500))},
     level_text='d>=0, d(x,x)=0, d>0 on clearly separated pairs, d<=getMaximumExtent(), symmetry where claimed, triangle inequality where '
@@ -47,7 +47,7 @@ reg('C07', engine='h_spaces',
     floors={'quick': dict({'c07_pairs': 3000000, 'c07_endpoint_checks': 6000000, 'c07_bounds_checks': 8000000, 'c07_alias_checks': 16000000,
                            'c07_reparam_checks': 5000000, 'c07_constant_speed_checks': 5000000, 'c07_pairs_seam_or_corner': 800000,
                            'c07_pairs_antipodal': 450000, 'c07_pairs_coincident': 150000, 'c07_pairs_nearly_coincident': 280000},
-                          **_per_kind('c07_cases_', 250)),
+                          **_per_kind('c07_cases_', 200)),
             'thorough': dict({'c07_pairs': 15000000, 'c07_reparam_checks': 25000000}, **_per_kind('c07_cases_', 1200))},
     level_text='interpolate(a,b,0)=a, (a,b,1)=b, interpolants in bounds (Dubins/Reeds-Shepp: heading), output aliasing from / to gives the '
                'non-aliased result, re-parameterisation consistency away from cut loci (Dubins family on lengths, Discrete within 1), '
@@ -62,15 +62,15 @@ reg('C08', engine='h_spaces',
          'two subspace samplers with in-bounds centres and distance in {0,1e-12..100*extent}}; 7 of 30 slots: one space, one predicate '
          '(all valid, all invalid, disc obstacle, thin heading-dependent slab, random cells) and 40-120 sample/sampleNear calls on each of the '
          'six valid-state samplers; case 0 probes distance >= 2^31 reaching a DiscreteStateSampler; non-trivial = >= 50 calls',
-    floors={'quick': dict({'c08_enforce_inbounds_inputs': 6000000, 'c08_enforce_wild_inputs': 6000000, 'c08_sample_uniform': 6000000,
-                           'c08_sample_near': 6000000, 'c08_sample_gaussian': 6000000, 'c08_subspace_sampler_calls': 6000000,
-                           'c08_compound_sampler_calls': 3000000, 'c08_wrapper_sampler_calls': 800000, 'c08_zero_distance_calls': 250000,
-                           'c08_distance_ge_10_extents_calls': 900000, 'c08_valid_sample_calls': 500000, 'c08_valid_sampleNear_calls': 500000,
+    floors={'quick': dict({'c08_enforce_inbounds_inputs': 5000000, 'c08_enforce_wild_inputs': 5000000, 'c08_sample_uniform': 5000000,
+                           'c08_sample_near': 5000000, 'c08_sample_gaussian': 5000000, 'c08_subspace_sampler_calls': 5000000,
+                           'c08_compound_sampler_calls': 2500000, 'c08_wrapper_sampler_calls': 600000, 'c08_zero_distance_calls': 250000,
+                           'c08_distance_ge_10_extents_calls': 800000, 'c08_valid_sample_calls': 450000, 'c08_valid_sampleNear_calls': 450000,
                            'c08_valid_ok_uniform': 100000, 'c08_valid_ok_gaussian': 30000, 'c08_valid_ok_obstacle_based': 30000,
                            'c08_valid_ok_bridge_test': 5000, 'c08_valid_ok_max_clearance': 100000, 'c08_valid_ok_min_clearance': 100000,
-                           'c08_valid_cases_pred_all_valid': 300, 'c08_valid_cases_pred_all_invalid': 300, 'c08_valid_cases_pred_disc': 300,
-                           'c08_valid_cases_pred_slab': 300, 'c08_valid_cases_pred_random': 300},
-                          **_per_kind('c08_cases_', 250)),
+                           'c08_valid_cases_pred_all_valid': 250, 'c08_valid_cases_pred_all_invalid': 250, 'c08_valid_cases_pred_disc': 250,
+                           'c08_valid_cases_pred_slab': 250, 'c08_valid_cases_pred_random': 250},
+                          **_per_kind('c08_cases_', 200)),
             'thorough': dict({'c08_enforce_wild_inputs': 30000000, 'c08_sample_near': 30000000, 'c08_valid_sample_calls': 2500000},
                              **_per_kind('c08_cases_', 1200))},
     level_text='enforceBounds leaves in-bounds states equal, maps every generated finite state into bounds and is idempotent; every output of '
